@@ -197,6 +197,25 @@ func init() {
 			}
 		}
 	}
+	// a shutdown request reaches the supervisor at every point of an ongoing restart: it must still end, with all it started
+	for tn, typ := range types {
+		tn, typ := tn, typ
+		c10Scenario(fmt.Sprintf("sup-%s-restart-then-shutdown", tn), 1, 2, func(w *World, t *tree) {
+			f := t.sup("S", typ, "w1", "w2")
+			w.Setup("start", func() {
+				if _, err := w.n.Spawn(f, gen.ProcessOptions{}); err != nil {
+					panic(err)
+				}
+			})
+			w.ex.Thread("A", func() { w.n.Send(w.pids["w1"], "fail") })
+			w.ex.ThreadLow("F", func() { w.n.SendExit(w.pids["S"], gen.TerminateReasonShutdown) })
+			w.Check = func() {
+				if t.anyAlive("S") {
+					w.ex.Fail("shutdown-ignored", "the supervisor was told to shut down while it was restarting its children and is still running")
+				}
+			}
+		})
+	}
 	// nested supervisors
 	for _, v := range []string{"S", "S2", "w1", "w2"} {
 		for _, activity := range []string{"steady", "shutdown"} {
